@@ -424,3 +424,198 @@ class InverseDictLookupSpec(OpExecSpec):
 
     def parse_native(self, inst, shape, toks):
         return {"err": toks[0] == "err", "r": I("i64", int(toks[1]))}
+
+
+# ----------------------------------------------------------------------------------------------------
+# C03.b  constant translated into the encoding domain: Codec::encode_int
+# ----------------------------------------------------------------------------------------------------
+class EncodeIntSpec(KernelSpec):
+    """For a column stored as e: T with codec [Add(T, y)] (decoded value e + y) or [ToI64(T)]: comparing the encoded value with
+    Codec::encode_int(c) must be equivalent to comparing the decoded value with c, for all six operators, and the
+    translation must not panic for any constant."""
+    method = ("Codec", None, "encode_int")
+    diff_cases = 4
+
+    def instantiations(self, tier):
+        return [{"T": t, "kind": k, "nat": "codec_encode_int"} for t in (("u8", "u32") if tier == "quick" else ("u8", "u16", "u32")) for k in ("Add", "ToI64")]
+
+    def sym_inputs(self, inst, shape):
+        t = inst["T"]
+        inp = {"e": sym(t, "e"), "c": sym("i64", "c")}
+        pre = []
+        if inst["kind"] == "Add":
+            inp["y"] = sym("i64", "y")
+            # the builder only emits Add(T, y) with every decoded value e + y representable (y = column minimum)
+            s = binop("AddWithOverflow", cast_int(inp["e"], "i64"), inp["y"])
+            pre.append(z3.Not(s.fields[1].z()))
+            pre.append(inp["y"].v != 0)
+        return inp, pre
+
+    def explore(self, ctx, ex, fn, inst, shape, inp, pre):
+        T = Agg("enum", [], name="EncodingType", variant=inst["T"].upper())
+        op = Agg("enum", [T, inp["y"]], name="CodecOp", variant="Add") if inst["kind"] == "Add" else Agg("enum", [T], name="CodecOp", variant="ToI64")
+        fs = ctx.src().struct_fields("Codec")
+        vals = [VecObj([op]) if f == "ops" else Havoc("?", f) for f in fs]
+        st = ex.start(fn, [Ref(Cell(Agg("struct", vals, name="Codec"))), inp["c"]], {}, pc=pre)
+        return ex.explore(st)
+
+    def post(self, inst, shape, inp, value, state=None):
+        enc_c = value
+        e64 = cast_int(inp["e"], "i64")
+        dec = binop("Add", e64, inp["y"]) if inst["kind"] == "Add" else e64
+        conds = []
+        for name, opn in (("=", "Eq"), ("<", "Lt"), ("<=", "Le"), (">", "Gt"), (">=", "Ge"), ("<>", "Ne")):
+            conds.append((f"decoded {name} constant <=> encoded {name} translated constant", binop("Eq", binop(opn, dec, inp["c"]), binop(opn, e64, enc_c))))
+        return conds
+
+    def random_inputs(self, rng, inst, shape):
+        t = inst["T"]
+        e = I(t, rnd_int(rng, t))
+        inp = {"e": e, "c": I("i64", rnd_int(rng, "i64"))}
+        if inst["kind"] == "Add":
+            y = rng.choice([-5, 1000, -2**62, 2**40, -2**63])
+            if y + e.v > 2**63 - 1:
+                y = -y
+            inp["y"] = I("i64", y)
+            if rng.random() < 0.5:
+                inp["c"] = I("i64", max(-2**63, min(2**63 - 1, y + rng.randint(-3, 300))))
+        return inp
+
+    def native(self, inst, shape, inp):
+        if inp is None:
+            return ("codec_encode_int", [])
+        return ("codec_encode_int", [inst["kind"], inst["T"], inp["y"].v if inst["kind"] == "Add" else 0, inp["c"].v])
+
+    def parse_native(self, inst, shape, toks):
+        return I("i64", int(toks[0]))
+
+
+# ----------------------------------------------------------------------------------------------------
+# C04.c  array aggregation loops
+# ----------------------------------------------------------------------------------------------------
+AGG_KINDS = {
+    # name: (struct, A type, V type, reference fold)
+    "max": ("MaxI64", "i64"), "min": ("MinI64", "i64"), "count": ("Count", "u32"), "sum": ("SumI64", "i64"),
+}
+MAXG = 2      # group keys 0..=2
+
+
+class AggregateSpec(OpExecSpec):
+    """Aggregate / AggregateNullable / CheckedAggregate / CheckedAggregateNullable ::execute on rows (key, value):
+    accumulator[k] == aggregate of the (present) rows with key k, starting from the aggregator's unit; the nullable variants
+    mark exactly the groups that received a present row; checked SUM fails iff an accumulation overflows"""
+    diff_cases = 2
+
+    def instantiations(self, tier):
+        out = []
+        for agg in ("max", "min", "count", "sum"):
+            for nullable in (False, True):
+                if agg == "count" and nullable:
+                    continue
+                out.append({"agg": agg, "nullable": nullable, "nat": f"op_aggregate_{agg}" + ("_nullable" if nullable else "")})
+        return out
+
+    def op_type(self, inst):
+        a, v = AGG_KINDS[inst["agg"]]
+        if inst["agg"] == "sum":
+            return ("CheckedAggregateNullable" if inst["nullable"] else "CheckedAggregate") + f"<i64, u8, {v}, {a}>"
+        return ("AggregateNullable" if inst["nullable"] else "Aggregate") + f"<i64, u8, {v}, {a}>"
+
+    def shapes(self, tier, inst):
+        return [0, 2] if tier == "quick" else [0, 1, 2, 3]
+
+    def sym_inputs(self, inst, shape):
+        n = shape
+        inp = {"vals": [sym("i64", f"v{i}") for i in range(n)], "keys": [sym("u8", f"k{i}") for i in range(n)]}
+        pre = [z3.ULE(k.v, MAXG) for k in inp["keys"]]
+        if inst["nullable"]:
+            inp["present"] = [sym("u8", f"p{i}") for i in range(nbytes(n))]
+        return inp, pre
+
+    def op_fields(self, ctx, inst):
+        return {"input": bufref(ctx, 0), "grouping": bufref(ctx, 1), "output": bufref(ctx, 2), "max_index": bufref(ctx, 3), "a": Agg("struct", [], name="PhantomData")}
+
+    def buffers(self, inst, shape, inp):
+        b = Buffers()
+        if inst["nullable"]:
+            b.nullable(0, inp["vals"], "i64", inp["present"])
+            b.nullable(2, [], AGG_KINDS[inst["agg"]][1], [])
+        else:
+            b.vec(0, inp["vals"], "i64")
+            b.vec(2, [], AGG_KINDS[inst["agg"]][1])
+        b.vec(1, inp["keys"], "u8")
+        b.scalar(3, I("i64", MAXG))
+        return b
+
+    def view(self, inst, shape, value, state):
+        return {"err": self.result_is_err(value), "acc": self.out_vec(state, 2), "present": self.out_present(state, 2) if inst["nullable"] else None}
+
+    def post(self, inst, shape, inp, value, state=None):
+        v = self.view(inst, shape, value, state) if state is not None else value
+        n = shape
+        agg = inst["agg"]
+        vty = AGG_KINDS[agg][1]
+        unit = {"max": I("i64", -2**63), "min": I("i64", 2**63 - 1), "count": I("u32", 0), "sum": I("i64", 0)}[agg]
+        conds = []
+        anyovf = B(False)
+        accs = []
+        seen = []
+        for g in range(MAXG + 1):
+            acc = unit
+            s = B(False)
+            for i in range(n):
+                mine = binop("Eq", inp["keys"][i], I("u8", g))
+                if inst["nullable"]:
+                    mine = band(mine, bit(inp["present"], i))
+                x = inp["vals"][i]
+                if agg == "max":
+                    nxt = ite(binop("Gt", x, acc), x, acc)
+                elif agg == "min":
+                    nxt = ite(binop("Lt", x, acc), x, acc)
+                elif agg == "count":
+                    nxt = binop("Add", acc, I("u32", 1))
+                else:
+                    r = binop("AddWithOverflow", acc, x)
+                    anyovf = bor(anyovf, band(mine, r.fields[1]))
+                    nxt = r.fields[0]
+                acc = ite(mine, nxt, acc)
+                s = bor(s, mine)
+            accs.append(acc)
+            seen.append(s)
+        if v["err"]:
+            return [("Err(Overflow) only when a checked accumulation overflows", anyovf if agg == "sum" else B(False))]
+        if agg == "sum":
+            conds.append(("Ok only when no accumulation overflows", bnot(anyovf)))
+        conds.append(("one accumulator per group id 0..=max_index", B(len(v["acc"]) == MAXG + 1)))
+        if len(v["acc"]) != MAXG + 1:
+            return conds
+        for g in range(MAXG + 1):
+            conds.append((f"accumulator of group {g} == aggregate over exactly its rows", binop("Eq", v["acc"][g], accs[g])))
+            if inst["nullable"] and v["present"] is not None:
+                conds.append((f"group {g} is marked present iff it received a non-NULL row", binop("Eq", bit(v["present"], g), seen[g])))
+        return conds
+
+    def random_inputs(self, rng, inst, shape):
+        n = shape
+        inp = {"vals": [I("i64", rnd_int(rng, "i64")) for _ in range(n)], "keys": [I("u8", rng.randint(0, MAXG)) for _ in range(n)]}
+        if inst["nullable"]:
+            inp["present"] = [I("u8", rng.randint(0, 255)) for _ in range(nbytes(n))]
+        return inp
+
+    def native(self, inst, shape, inp):
+        if inp is None:
+            return (inst["nat"], [])
+        t = [fmt_ints(inp["vals"]), fmt_ints(inp["keys"]), MAXG]
+        if inst["nullable"]:
+            t.append(fmt_ints(inp["present"]))
+        return (inst["nat"], t)
+
+    def parse_native(self, inst, shape, toks):
+        vty = AGG_KINDS[inst["agg"]][1]
+        return {"err": toks[0] == "err", "acc": parse_ints(toks[1], vty), "present": parse_ints(toks[2], "u8") if inst["nullable"] else None}
+
+    def native_view(self, inst, shape, v, st):
+        d = self.view(inst, shape, v, st)
+        if d["present"] is not None:
+            d["present"] = d["present"][:nbytes(MAXG + 1)]
+        return d
